@@ -53,7 +53,7 @@ struct Gen {
   const std::set<int>& mdrop;
   int elem = 0;      // running index of optional elements
   std::string body_xml, eq_xml, tendon_xml, act_xml, sensor_xml, contact_xml, key_ctrl;
-  std::vector<std::string> bodies, hinges, slides, alljoints1d, sites, geoms, freebodies;
+  std::vector<std::string> bodies, hinges, slides, alljoints1d, sites, geoms, freebodies, balls;
   Model m;
   bool f_materials = false;   // materials (one of them fully transparent) and per-geom colours
   bool f_adhesion = false, f_surfacevel = false, f_gravcomp = false;   // per-model features behind the mjModel.flg_* switches
@@ -75,7 +75,7 @@ struct Gen {
     }
     if (r.chance(0.2)) g += " friction=\"" + f(r.uniform(0.2, 1.5)) + " 0.005 0.0001\"";
     if (r.chance(0.15)) g += " condim=\"" + std::to_string(r.chance(0.5) ? 1 : (r.chance(0.5) ? 4 : 6)) + "\"";
-    if (r.chance(0.1)) g += " group=\"" + std::to_string(r.range(1, 3)) + "\"";
+    if (r.chance(0.1)) { int gr = r.range(1, 3); if (r.chance(0.3)) { static const int odd[] = {-3, -1, 4, 5, 6, 9}; gr = odd[gr % 3 + 3 * (int)r.chance(0.5)]; } g += " group=\"" + std::to_string(gr) + "\""; }   // mostly 1-3, sometimes negative or beyond mjNGROUP
     if (f_materials && r.chance(0.35)) g += std::string(" material=\"") + (r.chance(0.4) ? "mGhost" : "mSolid") + "\"";
     if (f_materials && r.chance(0.3)) g += " rgba=\"" + f(r.uniform(0, 1)) + " " + f(r.uniform(0, 1)) + " 0.3 " + (r.chance(0.25) ? std::string("0") : f(r.uniform(0.3, 1))) + "\"";
     if (f_adhesion && r.chance(0.4)) g += " adhesion=\"" + f(r.uniform(0.2, 3)) + "\"" + (r.chance(0.3) ? " margin=\"0.01\" gap=\"0.01\"" : "");
@@ -95,7 +95,7 @@ struct Gen {
     int jt = root ? r.below(10) : 3 + r.below(7);
     std::string jn = "j_" + name;
     if (root && jt < 5) { out += "<freejoint name=\"" + jn + "\"/>"; freebodies.push_back(name); m.njoint++; }
-    else if (jt < 6) { out += "<joint name=\"" + jn + "\" type=\"ball\" damping=\"" + f(r.uniform(0.01, 0.3)) + "\"/>"; m.njoint++; }
+    else if (jt < 6) { out += "<joint name=\"" + jn + "\" type=\"ball\" damping=\"" + f(r.uniform(0.01, 0.3)) + "\"/>"; m.njoint++; balls.push_back(jn); }
     else if (jt < 9) {
       out += "<joint name=\"" + jn + "\" type=\"hinge\" axis=\"" + (r.chance(0.5) ? "0 1 0" : "1 0 0") + "\" damping=\"" + f(r.uniform(0.01, 0.5)) + "\"";
       if (r.chance(0.4)) out += " limited=\"true\" range=\"" + f(-r.uniform(0.3, 1.5)) + " " + f(r.uniform(0.3, 1.5)) + "\"";
@@ -258,6 +258,8 @@ struct Gen {
         m.nact++; m.nu++;
       }
       if (!tendons.empty() && r.chance(0.4) && keep()) { act += "<motor name=\"a_t\" tendon=\"" + tendons[0] + "\" gear=\"1\"/>"; m.nact++; m.nu++; }
+      // integrated-velocity servo on a ball joint: a periodic transmission (the stored activation is kept within half a turn of the joint angle)
+      if (!balls.empty() && r.chance(0.3) && keep()) { act += "<intvelocity name=\"a_ball\" joint=\"" + balls[r.below((int)balls.size())] + "\" kp=\"" + f(r.uniform(1, 6)) + "\" actrange=\"-40 40\" gear=\"0 0 1\"/>"; m.nact++; m.nu++; }
       // actuators whose transmission target sits on a body without degrees of freedom (world site with a moving reference site; adhesion on the world's geoms)
       if (sites.size() > 1 && r.chance(0.12) && keep()) { act += "<general name=\"a_ref\" site=\"s_world\" refsite=\"" + sites[1] + "\" gear=\"0 0 1 0 0 0\" gainprm=\"2\"/>"; m.nact++; m.nu++; }
       if (o.contacts && r.chance(0.1) && keep()) { act += "<adhesion name=\"a_adh\" body=\"world\" ctrlrange=\"0 1\" gain=\"3\"/>"; m.nact++; m.nu++; }
